@@ -92,24 +92,27 @@ def policy_spec(draw, name, tight=False, batching=None):
 
 @st.composite
 def call_cases(draw, policies=ALL_POLICIES, max_tasks=6, max_pools=2, max_workers=2, tight_deadlines=False, running=True, scheduled=True,
-               max_runtime=6, max_strategies=2, allow_cond=False, batching=None):
+               max_runtime=6, max_strategies=2, allow_cond=False, batching=None, flat=False):
+    """`flat`: several independent released single-task graphs and no history - many tasks compete in one invocation."""
     pname = draw(st.sampled_from(list(policies)))
     cluster = draw(specs.clusters(max_pools=max_pools, max_workers=max_workers))
     n_prof = draw(st.integers(1, 3))
     profiles = [draw(specs.profile_for(cluster, f"pr{i}", feasible=draw(st.integers(0, 5)) > 0, max_strategies=max_strategies, max_runtime=max_runtime,
                                        contention=draw(st.booleans()))) for i in range(n_prof)]
     now = draw(st.integers(3, 20))
-    budget = draw(st.integers(1, max_tasks))
+    budget = draw(st.integers(2 if flat else 1, max_tasks))
     graphs = []
     used = 0
-    while used < budget and len(graphs) < 4:
-        jobs = draw(small_graph(f"G{len(graphs)}", n_prof, budget - used, allow_cond=allow_cond))
+    while used < budget and len(graphs) < (max_tasks if flat else 4):
+        jobs = draw(small_graph(f"G{len(graphs)}", n_prof, 1 if flat else budget - used, allow_cond=allow_cond))
         used += len(jobs)
         if tight_deadlines:
             dl = now + draw(st.integers(-3, 14))
         else:
             dl = now + draw(st.one_of(st.integers(-2, 40), st.sampled_from([25, 40, 60])))
         graphs.append({"name": f"G{len(graphs)}", "jobs": jobs, "release_time": draw(st.sampled_from([0, 0, now, now - 1, max(0, now - 2)])), "deadline": dl})
+    if flat:
+        running = scheduled = False
     all_jobs = [(g["name"], j["name"]) for g in graphs for j in g["jobs"]]
     # history: completed prefix, running tasks, scheduled-for-later tasks
     completed, run, sched = [], [], []
@@ -121,7 +124,7 @@ def call_cases(draw, policies=ALL_POLICIES, max_tasks=6, max_pools=2, max_worker
                 parents[names[c]].append(j["name"])
         done = set()
         for j in g["jobs"]:  # insertion order is topological for the shapes above
-            if all(p in done for p in parents[j["name"]]) and draw(st.integers(0, 3)) == 0:
+            if not flat and all(p in done for p in parents[j["name"]]) and draw(st.integers(0, 3)) == 0:
                 done.add(j["name"])
                 completed.append([g["name"], j["name"]])
         for j in g["jobs"]:
